@@ -10,6 +10,8 @@ import Logrange.Generated.C19
 * `saverace <name>,<name>,… <actor>*` — concurrent creates of the given (fresh) names with persistence: the schedule of atomic
                                   steps (two critical sections, snapshot, write; a step blocked on the save mutex is skipped)
                                   → `disk <sorted names on disk> acked <actors told "created">`
+* `ensurerace <name> <tags>,<tags>,… <actor>*` — concurrent EnsurePipe callers of one name with the given tag conditions, schedule
+                                  of critical sections (GetPipe, CreatePipe's two sections) → per caller `ok:<tags>` | `conflict` | `failed` | `pending`
 * `restart` / `crash`           — clean stop + start / start on what `savePipes` left on disk → `ok <n> <sorted names>` or `refused`
 * `spec.sorted <name>*`         — SPEC: the names sorted in Go string order, duplicates kept
 -/
@@ -66,6 +68,16 @@ def step (s : PState) (toks : List String) : PState × String :=
       | some (_, .done true) => true
       | _ => false)
     (s, s!"disk {hexList (sortBytes (fin.disk.map (·.name)))} acked {" ".intercalate (acked.map toString)}")
+  | "ensurerace" :: name :: tags :: sched =>
+    -- concurrent EnsurePipe callers of one name, caller i with tags condition tags[i] (empty filter)
+    let callers : List Pipe := (tags.splitOn ",").map (fun t => (⟨unhex name, unhex t, []⟩ : Pipe))
+    let fin := erun ⟨[], callers.map (fun p => (p, Epc.get 0))⟩ (sched.filterMap String.toNat?)
+    let show1 : Pipe × Epc → String := fun x => match x.2 with
+      | .done (.ok q) => s!"ok:{hex q.tagsCond}"
+      | .done .conflict => "conflict"
+      | .done _ => "failed"
+      | _ => "pending"
+    (s, " ".intercalate (fin.pcs.map show1))
   | ["restart"] => startOp s .restart
   | ["crash"] => startOp s .crash
   | ["show", lim, offs] =>
